@@ -15,6 +15,7 @@ import (
 	"os"
 	"strings"
 
+	"github.com/smallstep/linkedca"
 	"golang.org/x/crypto/ssh"
 
 	"github.com/smallstep/certificates/authority"
@@ -42,6 +43,9 @@ func (k *Case) runE2E() (out string) {
 			out = "crash"
 		}
 	}()
+	if strings.HasPrefix(k.E2E, "admin") {
+		return k.runE2EAdmin()
+	}
 	if k.Kind == "sshhost" || k.Kind == "sshuser" {
 		return k.runE2ESSH()
 	}
@@ -61,6 +65,11 @@ func (k *Case) runE2E() (out string) {
 	if e2eCA == nil {
 		e2eCA = ca
 	}
+	return k.signX509On(ca)
+}
+
+// signX509On requests the names of the case from ca through token → Authorize → Sign.
+func (k *Case) signX509On(ca *fixture.CA) string {
 	sans := append(append(append(append([]string{}, k.DNS...), k.IPs...), k.Emails...), k.URIs...)
 	tok, err := ca.Token(fixture.TokenOpts{Subject: k.CN, SANs: sans})
 	if err != nil {
@@ -91,6 +100,135 @@ func (k *Case) runE2E() (out string) {
 	return ""
 }
 
+func nilIfEmpty(l []string) []string {
+	if len(l) == 0 {
+		return nil
+	}
+	return l
+}
+
+// linkedPolicy is the rule set in the form the admin API stores it (linkedca): X.509 names, and for SSH the kinds
+// that form has (host: dns, ips, principals; user: emails, principals).
+func (k *Case) linkedPolicy() *linkedca.Policy {
+	lp := &linkedca.Policy{}
+	switch k.Kind {
+	case "x509":
+		lp.X509 = &linkedca.X509Policy{AllowWildcardNames: k.Wild}
+		if k.P.nonEmpty() {
+			lp.X509.Allow = &linkedca.X509Names{Dns: nilIfEmpty(k.P.DNS), Ips: nilIfEmpty(k.P.IP), Emails: nilIfEmpty(k.P.Email), Uris: nilIfEmpty(k.P.URI), CommonNames: nilIfEmpty(k.P.CN)}
+		}
+		if k.X.nonEmpty() {
+			lp.X509.Deny = &linkedca.X509Names{Dns: nilIfEmpty(k.X.DNS), Ips: nilIfEmpty(k.X.IP), Emails: nilIfEmpty(k.X.Email), Uris: nilIfEmpty(k.X.URI), CommonNames: nilIfEmpty(k.X.CN)}
+		}
+	case "sshhost":
+		h := &linkedca.SSHHostPolicy{}
+		if k.P.nonEmpty() {
+			h.Allow = &linkedca.SSHHostNames{Dns: nilIfEmpty(k.P.DNS), Ips: nilIfEmpty(k.P.IP), Principals: nilIfEmpty(k.P.Prin)}
+		}
+		if k.X.nonEmpty() {
+			h.Deny = &linkedca.SSHHostNames{Dns: nilIfEmpty(k.X.DNS), Ips: nilIfEmpty(k.X.IP), Principals: nilIfEmpty(k.X.Prin)}
+		}
+		lp.Ssh = &linkedca.SSHPolicy{Host: h}
+	case "sshuser":
+		u := &linkedca.SSHUserPolicy{}
+		if k.P.nonEmpty() {
+			u.Allow = &linkedca.SSHUserNames{Emails: nilIfEmpty(k.P.Email), Principals: nilIfEmpty(k.P.Prin)}
+		}
+		if k.X.nonEmpty() {
+			u.Deny = &linkedca.SSHUserNames{Emails: nilIfEmpty(k.X.Email), Principals: nilIfEmpty(k.X.Prin)}
+		}
+		lp.Ssh = &linkedca.SSHPolicy{User: u}
+	}
+	return lp
+}
+
+func (r Rules) nonEmpty() bool {
+	return len(r.CN)+len(r.DNS)+len(r.IP)+len(r.Email)+len(r.URI)+len(r.Prin) > 0
+}
+
+var e2eAdminCA *fixture.CA
+
+// runE2EAdmin: the rule set goes in the way an administrator sets it — Authority.CreateAuthorityPolicy with the
+// linkedca form, which is checked for lock-out, written to the admin database (linkedca → stored form), read back
+// (stored form → linkedca → authority/policy options) and compiled into the engines; with "admin-restart" the CA is
+// restarted on that database before the names are requested, so the engine is built from what was stored.
+func (k *Case) runE2EAdmin() string {
+	yes := true
+	o := fixture.Opts{From: e2eAdminCA, SSH: true, JWKClaims: &provisioner.Claims{EnableSSHCA: &yes},
+		Config: func(cfg *config.Config) { cfg.AuthorityConfig.EnableAdmin = true }}
+	ca, err := fixture.New(o)
+	if err != nil {
+		return ""
+	}
+	defer func() { ca.Close() }()
+	if e2eAdminCA == nil {
+		e2eAdminCA = ca
+	}
+	ctx := context.Background()
+	admins, _, err := ca.Auth.GetAdmins("", 5)
+	if err != nil || len(admins) == 0 {
+		return ""
+	}
+	if strings.HasPrefix(k.E2E, "adminprov") {
+		// the same through the provisioner's own policy: UpdateProvisioner with the linkedca record carrying it
+		var lp *linkedca.Provisioner
+		if provs, err := ca.Auth.GetAdminDatabase().GetProvisioners(ctx); err == nil {
+			for _, p := range provs {
+				if p.Name == "jwk" {
+					lp = p
+				}
+			}
+		}
+		if lp == nil {
+			return ""
+		}
+		lp.Policy = k.linkedPolicy()
+		if err := ca.Auth.UpdateProvisioner(ctx, lp); err != nil {
+			var pe *authority.PolicyError
+			switch {
+			case errors.As(err, &pe) && pe.Typ == authority.ConfigurationFailure:
+				return "badrule"
+			case errors.As(err, &pe):
+				return ""
+			case strings.Contains(err.Error(), "cannot parse") || strings.Contains(err.Error(), "error initializing") || strings.Contains(err.Error(), "error validating"):
+				return "badrule"
+			}
+			if os.Getenv("VERIF_C04_DEBUG") != "" {
+				fmt.Fprintln(os.Stderr, "other(adminprov update):", err)
+			}
+			return ""
+		}
+	} else if _, err := ca.Auth.CreateAuthorityPolicy(ctx, admins[0], k.linkedPolicy()); err != nil {
+		var pe *authority.PolicyError
+		if errors.As(err, &pe) {
+			switch pe.Typ {
+			case authority.ConfigurationFailure:
+				return "badrule"
+			case authority.AdminLockOut, authority.EvaluationFailure:
+				return "" // the administrator would be locked out: refused before anything is stored (C16)
+			}
+		}
+		if os.Getenv("VERIF_C04_DEBUG") != "" {
+			fmt.Fprintln(os.Stderr, "other(admin create):", err)
+		}
+		return ""
+	}
+	if strings.HasSuffix(k.E2E, "-restart") {
+		n, err := ca.Restart()
+		if err != nil {
+			if os.Getenv("VERIF_C04_DEBUG") != "" {
+				fmt.Fprintln(os.Stderr, "other(admin restart):", err)
+			}
+			return "restart-failed"
+		}
+		ca = n
+	}
+	if k.Kind == "x509" {
+		return k.signX509On(ca)
+	}
+	return k.signSSHOn(ca)
+}
+
 func sshNameOpts(r Rules) *authpolicy.SSHNameOptions {
 	return &authpolicy.SSHNameOptions{DNSDomains: r.DNS, IPRanges: r.IP, EmailAddresses: r.Email, Principals: r.Prin}
 }
@@ -118,6 +256,11 @@ func (k *Case) runE2ESSH() string {
 	if e2eSSHCA == nil {
 		e2eSSHCA = ca
 	}
+	return k.signSSHOn(ca)
+}
+
+// signSSHOn requests the principals of the case from ca through token → Authorize(ssh-sign) → SignSSH.
+func (k *Case) signSSHOn(ca *fixture.CA) string {
 	typ := "user"
 	if k.Kind == "sshhost" {
 		typ = "host"
@@ -222,6 +365,15 @@ func genE2ESSH(r *c.Rng) *Case {
 			}
 		}
 	}
+	if r.Chance(1, 4) {
+		// the stored (linkedca) form has dns, ips and principals for host and e-mails and principals for user policies
+		k.E2E = c.Pick(r, []string{"admin", "admin-restart", "adminprov", "adminprov-restart"})
+		if k.Kind == "sshhost" {
+			k.P.Email, k.X.Email = nil, nil
+		} else {
+			k.P.DNS, k.P.IP, k.X.DNS, k.X.IP = nil, nil, nil, nil
+		}
+	}
 	return k
 }
 
@@ -269,6 +421,33 @@ func genE2E(r *c.Rng) *Case {
 	if len(k.DNS)+len(k.IPs)+len(k.Emails)+len(k.URIs) == 0 {
 		// a token without SANs gets the subject as its only SAN: say so explicitly
 		k.DNS = []string{k.CN}
+	}
+	if r.Chance(1, 4) {
+		// through the administrator's path; the policy must let the administrator ("step") in, or it is refused
+		k.E2E = c.Pick(r, []string{"admin", "admin-restart", "adminprov", "adminprov-restart"})
+		if k.P.nonEmpty() {
+			k.P.DNS = append(k.P.DNS, "step")
+		}
+		// rules on the common name itself (a kind of rule the other kinds' conversions do not carry along):
+		// sometimes on top of the generated rules, sometimes as the only rule that decides
+		switch r.Intn(6) {
+		case 0:
+			k.X.CN = append(k.X.CN, k.CN)
+		case 1:
+			if k.P.nonEmpty() {
+				k.P.CN = append(k.P.CN, k.CN)
+			}
+		case 2: // every name allowed by exact rules, the common name alone is denied
+			k.Emails, k.URIs = nil, nil
+			if len(k.DNS)+len(k.IPs) == 0 {
+				k.DNS = []string{k.CN} // a token without names gets its subject as the only name
+			}
+			k.P = Rules{DNS: append(append([]string{}, k.DNS...), "step"), IP: k.IPs, CN: []string{k.CN}}
+			k.X = Rules{CN: []string{c.Pick(r, []string{k.CN, strings.ToUpper(k.CN), "other-" + k.CN})}}
+		case 3: // deny-only policy whose single rule is the common name (or a near miss of it)
+			k.P = Rules{}
+			k.X = Rules{CN: []string{c.Pick(r, []string{k.CN, strings.ToUpper(k.CN), k.CN + "x"})}}
+		}
 	}
 	return k
 }
